@@ -17,7 +17,19 @@ THEOREMS = ["C08.dispatch_total", "C08.shipped_load_ok", "C08.shipped_star_only"
             "C08.stats_bounded_of_calibration", "C08.Inst.bounded", "C08.InstB.quantize_ok"]
 
 
+def gen_dynamic_batch(rng, i):
+    """models whose inputs have a dynamic batch dimension, calibrated with batches of 2-4 samples at once"""
+    mb, info = gm.gen_model(rng, n_ops=rng.randint(1, 4), n_subgraphs=1, kinds=["FULLY_CONNECTED", "FULLY_CONNECTED", "TANH", "LOGISTIC", "ADD", "MUL"],
+                            p_unsupported=0.0, dynamic_batch=1.0, alias_sig=0.0, bool_mask=0.0)
+    data = gm.random_inputs(mb, rng, n=2, batch=rng.choice([2, 3, 4]))
+    name, rec = pl.shipped_recipes()[i % len(pl.shipped_recipes())]
+    info["tags"].add("batched_calibration_of_dynamic_batch_model")
+    return fp.Case(mb, info, recipe=rec, data=data, desc=name + " (batched calibration)")
+
+
 def gen(rng, i):
+    if i % 10 == 9:
+        return gen_dynamic_batch(rng, i)
     # NFunshared: no tied constants (C15 allows rejecting those), everything else allowed
     mb, info = gm.gen_model(rng, n_subgraphs=1 if i % 5 else 2, share=0.0, name_hazard=0.1, p_unsupported=0.3)
     data = gm.random_inputs(mb, rng, n=1)
